@@ -280,8 +280,10 @@ def execute(trace):
             # the workspace path as lian sees it (not resolved, possibly relative) and as it really is
             seen_abs = os.path.join(os.path.abspath(os.path.join(cwd, w_arg)), "lian_workspace") if appended else os.path.abspath(os.path.join(cwd, w_arg))
             seen_arg = os.path.join(w_arg, "lian_workspace") if appended else w_arg
-            masks = sorted({W: "<W>", W_real: "<W>", seen_abs: "<W>", w_abs: "<WP>", os.path.abspath(os.path.join(cwd, w_arg)): "<WP>"}.items(),
-                           key=lambda kv: -len(kv[0]))
+            mk = {W: "<W>", W_real: "<W>", seen_abs: "<W>"}
+            for p_ in (w_abs, os.path.abspath(os.path.join(cwd, w_arg))):
+                mk.setdefault(p_, "<WP>")        # the -w directory; when lian uses it as the workspace itself it is already <W>
+            masks = sorted(mk.items(), key=lambda kv: -len(kv[0]))
             masks = [list(m) for m in masks]
             if not os.path.isabs(w_arg):
                 masks.append([seen_arg, "<W>"])
